@@ -144,11 +144,13 @@ fn check_declared(case: &LedgerCase, obs: &mut Obs) -> Verdict {
         (Some(me), Some(msg)) => {
             if let Err(e) = compare(&model.rows, &n, true, &CmpWhat::all()) { return Verdict::Fail(format!("prefix before rejection: {e}\n{csv}")); }
             use crate::model::Cause::*;
+            let undeclared: Vec<HRow> = rows.iter().map(|r| { let mut c = r.clone(); c.sfl.clear(); c }).collect();
+            if let Some(id) = super::c04::residue_class(rows, &model_for(&undeclared, None), msg) { let _ = id; return Verdict::Skip("rounding-residue-rejection(R5/R1b)".into()); }
             let ok = match me.cause { SflMismatch => msg.contains("superficial loss was specified, but the difference"), SflOnNonLoss => msg.contains("but there is no capital loss"), _ => true };
             if !ok { return Verdict::Fail(format!("rejected for another reason than the model's ({:?}): {msg}\n{csv}", me.cause)); }
             obs.class(format!("rejected:{:?}", me.cause));
         }
-        (None, Some(msg)) => { if super::c04::is_chain_residue(rows, &model, msg) { return Verdict::Skip("chain-residue(R5)".into()); } return Verdict::Fail(format!("declared values are all within 0.001 of the computed ones (or forced) but the history was rejected: {msg}\n{csv}")); }
+        (None, Some(msg)) => { if super::c04::is_chain_residue(rows, &model, msg) { return Verdict::Skip("rounding-residue-rejection(R5/R1b)".into()); } return Verdict::Fail(format!("declared values are all within 0.001 of the computed ones (or forced) but the history was rejected: {msg}\n{csv}")); }
         (Some(me), None) => return Verdict::Fail(format!("a declared superficial loss should have been rejected ({:?} at row {}) but was accepted\n{csv}", me.cause, me.src)),
     }
     classify_declared(rows, &model, obs);
